@@ -61,6 +61,12 @@ def run_sessions(spec: dict, prop: str, make_monitors: Callable[[], list],
             acc["counters"]["budget_cut"] = acc["counters"].get("budget_cut", 0) + 1
             break
         cfg = cfg_fn(rng)
+        large = spec.get("_tier") == "thorough" and rng.random() < 0.2
+        if large and cfg.max_per_frame > 0 and not cfg.big:
+            # thorough tier: a share of larger forests and longer histories
+            cfg.T = rng.randint(8, 12)
+            cfg.max_per_frame = rng.choice([4, 5, 6]) if cfg.ndim == 3 else 4
+            acc["counters"]["large-sessions"] = acc["counters"].get("large-sessions", 0) + 1
         sseed = rng.randrange(1 << 30)
         monitors = make_monitors()
         w = weights_fn(rng) if weights_fn else weights
@@ -71,7 +77,7 @@ def run_sessions(spec: dict, prop: str, make_monitors: Callable[[], list],
                                  {"undo": 8, "redo": 2}]))
             acc["counters"]["history-heavy-sessions"] = \
                 acc["counters"].get("history-heavy-sessions", 0) + 1
-        ns = rng.randint(*nsteps)
+        ns = rng.randint(*nsteps) * (2 if large else 1)
         try:
             sess = session.run_random_session(cfg, monitors, sseed, ns, weights=w,
                                               refusal_rate=refusal_rate, opgen=opgen)
